@@ -43,8 +43,12 @@ def main():
     if mode == "partial":
         with open(src, "rb") as f:
             data = f.read()
-        with open(dst, "wb") as f:
+        # a truncated file left at the destination path; written beside it and renamed (as the tools do), never in place:
+        # an existing destination may be a hard link shared with another node
+        tmp = dst + ".part%d" % os.getpid()
+        with open(tmp, "wb") as f:
             f.write(data[:max(1, len(data) // 2)])
+        os.replace(tmp, dst)
         sys.stderr.write(f"{name}: connection unexpectedly closed\n")
         return 12
     if not os.path.exists(src):
